@@ -189,6 +189,10 @@ Definition C_selfdestruct (gsd gnew : Z) (eip150 eip158 empty exist balanceNonZe
   if eip150 then gsd + (if eip158 then (if empty && balanceNonZero then gnew else 0) else (if exist then 0 else gnew)) else 0.
 Definition R_selfdestruct (already : bool) : Z := if already then 0 else 24000.
 
+(* BLOCKHASH: the hash of one of the 256 most recent complete blocks, else 0 *)
+Definition spec_BLOCKHASH (getHash : Z -> Z) (number num : Z) : Z :=
+  if (number - 256 <=? num) && (num <? number) then getHash num else 0.
+
 (* ------------------------------------------------------------------ instruction sets *)
 
 (* The opcode table the aquachain fork schedule prescribes is written out in
